@@ -427,19 +427,13 @@ class Interpolator:
 
             text = text[len(m.group()):]
 
-        if len(nodes) == 1:
+        # (text without an expression is a message like any other)
+        if len(nodes) == 1 and not (
+            translate
+            and isinstance(nodes[0], ast.Constant)
+            and isinstance(nodes[0].value, str)
+        ):
             target = nodes[0]
-
-            if (
-                translate
-                and isinstance(target, ast.Constant)
-                and isinstance(target.value, str)
-            ):
-                target = template(
-                    "translate(msgid, domain=__i18n_domain, context=__i18n_context, target_language=target_language)",  # noqa:  E501 line too long
-                    msgid=target,
-                    mode="eval",
-                )
         else:
             if translate:
                 formatting_string = ""
@@ -476,7 +470,7 @@ class Interpolator:
                     TRAIL=ast.Constant(trail),
                     mapping=ast.Dict(
                         keys=keys,
-                        values=values),
+                        values=values) if keys else load("None"),
                     mode="eval")
             else:
                 nodes = [
